@@ -4,6 +4,7 @@ package main
 // cmd/simcheck/extraapi.go): the wrappers are generated per tree.
 
 import (
+	"encoding/json"
 	"fmt"
 	"reflect"
 	"strconv"
@@ -15,7 +16,7 @@ type extraFn struct {
 	Ver    int
 	Name   string
 	Recv   int      // 1: method of the version's object type
-	Params []string // "string" | "int" | "float" | "bool" | "bytes" | "any" | "strs" | "obj" | "objptr"
+	Params []string // "string" | "int" | "float" | "bool" | "bytes" | "any" | "strs" | "func" | "obj" | "objptr"
 	// Call returns the results and the byte buffers it passed in (the
 	// caller's own buffers, which it is free to reuse afterwards).
 	// objs: the objects for parameters of the version's own type, in order.
@@ -49,6 +50,21 @@ func extraStrs(s string) []string {
 		return nil
 	}
 	return strings.Split(s, "\x1e")
+}
+
+// extraJSON fills an options struct from a JSON object.
+func extraJSON[T any](s string) T {
+	var v T
+	json.Unmarshal([]byte(s), &v)
+	return v
+}
+
+func extraJSONPtr[T any](s string) *T {
+	if s == "nil" {
+		return nil
+	}
+	v := extraJSON[T](s)
+	return &v
 }
 
 var extraAPI []extraFn
